@@ -115,8 +115,8 @@ class Values:
         if p in ("compound", "compoundstring") and fn not in ("GetCompoundDataNISTByName",):
             pool = ["H2O", "Ca5(PO4)3OH", "C6H12O6", "(NH4)2SO4", "Fe0.5Ni.25O1.25", "UO2(NO3)2(H2O)6", "Es2O3", "Pb", "LaB6", "SiO2", "(H2O)", "Mg(O(OH)2)3",
                     "Ca5.522(PO4.48)3OH", "Fe0.947O", "YBa2Cu3O6.93", "H0.5O0.25"]      # total atom counts that are not integers
-            pool += ["Ca" + "(" * k + "OH" + ")" * k + "2" for k in (30, 31, 32, 33, 34)]      # deep but well-formed nesting
-            pool += ["H2.00000000000000000000O", "Fe2O3.0000000000000000000", "SiO18446744073709551616", "C12345678901234567890123H"]   # very long digit runs
+            must = ["Ca" + "(" * k + "OH" + ")" * k + "2" for k in (15, 16, 17, 31, 32, 33, 63, 64, 65)]      # deep but well-formed nesting, around powers of two
+            must += ["H2.00000000000000000000O", "Fe2O3.0000000000000000000", "SiO18446744073709551616", "C12345678901234567890123H"]   # very long digit runs
             bad = ["RfDb", "Rf2(SgO4)3", "DbBhO2", "Xx2Rf",                             # more than one reason to reject
                    None, "", "Hx", "h2o", "H2O ", "(H2O", "H2O)", "2H", "Rf", "H0", "He2..3", "Water", "()", "H2O\x01", "\xc3\xa9", "(SiO2)0", "Ca(OH)0", "(H2O)0.0",
                    "H.", "Ca.O", "H2(SO4).", "Ca5(PO4)0F", "Si" * 150, "(" * 40 + "H" + ")" * 40]
@@ -132,6 +132,7 @@ class Values:
                 out += r.sample(self.nist_names, min(len(self.nist_names), max(1, n // 3)))
             # two long formulas that agree in their first 40+ characters, next to each other and then the first again: a lookup that identifies a
             # compound by a truncated or hashed form of its name mixes them up
+            out += must if n >= 12 else r.sample(must, 2)
             stem = "Fe0.70Cr0.18Ni0.08Mn0.02Si0.01C0.0004P0.0002S0.0001"
             out += [stem + "Mo0.01", stem + "Mo0.09", stem + "Mo0.01", "Si0.9999995B0.0000005"]
             return out
@@ -217,7 +218,8 @@ def sweep(h, desc, vals, fn, budget, quick):
             elif k == "c":
                 cols.append([(r.uniform(-1e6, 1e6), r.uniform(-1e6, 1e6)) for _ in range(per)] + [(0.0, 0.0), (3.0, 4.0)])
         n = max([len(c) for c in cols] or [1])
-        n = min(n, per + 4)
+        # string columns carry hand-picked members at their end (deep nesting, long shared prefixes): they are never cut short
+        n = min(n, max([per + 4] + [len(c) for c, i in zip(cols, cont_pos) if kinds[i] == "s"]))
         for j in range(n):
             args = [None] * len(kinds)
             for i, v in zip(int_pos, combo):
@@ -360,7 +362,7 @@ def judge(fn, p, has_slot):
             bad.append(("error-code", "XRL_ERROR_INVALID_ARGUMENT", code))
         if len(msg) == 0:
             bad.append(("error-message", "non-empty message", msg[:80]))   # (a message may echo an unprintable offending character)
-    if err is None and (";od=-0x1.849p+9" in res or ";oi=-777" in res):
+    if err is None and (";od=-0x1.84ap+9" in res or ";oi=-777" in res):
         bad.append(("out-not-written", "every requested output written on success", res[:120]))      # the interpreter's sentinel is still there
     if has_slot and not p.get("noslot_same", True):
         bad.append(("noslot-differs", "bit-identical result without an error slot", res[:80]))
